@@ -1143,13 +1143,15 @@ func (t *tree) newValueNode(tok item) ast.Node {
 }
 
 func (t *tree) newGlobalNode(tok, next item) ast.Node {
-	var name = tok.val
+	// (collected and joined once: appending segment by segment copies the name
+	// so far each time, which is quadratic in the length of the name.)
+	var parts = []string{tok.val}
 	for next.typ == itemDotIdent {
-		name += next.val
+		parts = append(parts, next.val)
 		next = t.next()
 	}
 	t.backup()
-	return &ast.GlobalNode{tok.pos, name, data.Undefined{}}
+	return &ast.GlobalNode{tok.pos, strings.Join(parts, ""), data.Undefined{}}
 }
 
 func (t *tree) newFunctionNode(tok item) ast.Node {
